@@ -423,15 +423,9 @@ func (f *fileInst) goStmt(g *ast.GoStmt) {
 	call := g.Call
 	f.seq++
 	// instrument function literals inside the call (fun and args)
-	f.funcLitsIn(call.Fun)
-	if fl, ok := call.Fun.(*ast.FuncLit); ok {
-		f.stmtList(fl.Body.List)
-	}
+	f.funcLitsIn(call.Fun) // (ast.Inspect visits the root too: a FuncLit callee is walked here)
 	for _, a := range call.Args {
 		f.funcLitsIn(a)
-		if fl, ok := a.(*ast.FuncLit); ok {
-			f.stmtList(fl.Body.List)
-		}
 	}
 	if fl, ok := call.Fun.(*ast.FuncLit); ok && len(call.Args) == 0 && len(fl.Type.Params.List) == 0 {
 		// go func(){...}()  ->  zzsimrt.Go(site, func(){...})
@@ -446,23 +440,59 @@ func (f *fileInst) goStmt(g *ast.GoStmt) {
 		f.replace(call.Lparen, call.Rparen+1, fmt.Sprintf("; zzsimrt.Go(%q, func() { %s() }) }", site, fv))
 		return
 	}
-	var lhs, use []string
-	for i := range call.Args {
-		v := fmt.Sprintf("zzA%d_%d", f.seq, i)
-		lhs = append(lhs, v)
-		if i == len(call.Args)-1 && call.Ellipsis.IsValid() {
-			use = append(use, v+"...")
-		} else {
-			use = append(use, v)
+	// constants (nil, literals, true/false) have no evaluation-time semantics and no type of their
+	// own: they are passed through unchanged; every other argument is evaluated now into a temp.
+	isConst := func(e ast.Expr) bool {
+		switch x := e.(type) {
+		case *ast.BasicLit:
+			return true
+		case *ast.Ident:
+			return x.Name == "nil" || x.Name == "true" || x.Name == "false"
+		}
+		return false
+	}
+	anyConst := false
+	for _, a := range call.Args {
+		if isConst(a) {
+			anyConst = true
 		}
 	}
-	f.replace(call.Lparen, call.Lparen+1, fmt.Sprintf("; %s := ", strings.Join(lhs, ", ")))
-	endArgs := call.Rparen
-	if call.Ellipsis.IsValid() {
-		// drop the "..." from the assignment
-		f.replace(call.Ellipsis, call.Ellipsis+3, "")
+	if !anyConst {
+		// argument texts stay in place (nested function literals keep their instrumentation)
+		var lhs, use []string
+		for i := range call.Args {
+			v := fmt.Sprintf("zzA%d_%d", f.seq, i)
+			lhs = append(lhs, v)
+			if i == len(call.Args)-1 && call.Ellipsis.IsValid() {
+				use = append(use, v+"...")
+			} else {
+				use = append(use, v)
+			}
+		}
+		f.replace(call.Lparen, call.Lparen+1, fmt.Sprintf("; %s := ", strings.Join(lhs, ", ")))
+		if call.Ellipsis.IsValid() {
+			// drop the "..." from the assignment
+			f.replace(call.Ellipsis, call.Ellipsis+3, "")
+		}
+		f.replace(call.Rparen, call.Rparen+1, fmt.Sprintf("; zzsimrt.Go(%q, func() { %s(%s) }) }", site, fv, strings.Join(use, ", ")))
+		return
 	}
-	f.replace(endArgs, endArgs+1, fmt.Sprintf("; zzsimrt.Go(%q, func() { %s(%s) }) }", site, fv, strings.Join(use, ", ")))
+	// mixed form: the argument list is regenerated from the argument texts
+	var pro strings.Builder
+	var use []string
+	for i, a := range call.Args {
+		u := f.text(a)
+		if !isConst(a) {
+			v := fmt.Sprintf("zzA%d_%d", f.seq, i)
+			fmt.Fprintf(&pro, "; %s := %s", v, u)
+			u = v
+		}
+		if i == len(call.Args)-1 && call.Ellipsis.IsValid() {
+			u += "..."
+		}
+		use = append(use, u)
+	}
+	f.replace(call.Lparen, call.Rparen+1, fmt.Sprintf("%s; zzsimrt.Go(%q, func() { %s(%s) }) }", pro.String(), site, fv, strings.Join(use, ", ")))
 }
 
 func (f *fileInst) apply() []byte {
